@@ -74,11 +74,12 @@ def random_ops(rng: random.Random, pool: list, length: int) -> list[dict]:
     ops = []
     npobj = 0
     names = sorted(set().union(*(e._variable_names for e in pool))) or ["x"]
+    stock = [g.point(names) for _ in range(3)]      # points come back: "the same point again" histories
     for _ in range(length):
         i = rng.randrange(len(pool))
         e = pool[i]
         vs = sorted(e._variable_names)
-        p = g.point(names)
+        p = rng.choice(stock) if rng.random() < 0.7 else g.point(names)
         kind = rng.choice(OPS)
         x = rng.choice(vs) if vs and rng.random() < 0.85 else "w"
         op = {"op": kind, "i": i, "p": wire.point(p), "x": x}
@@ -90,6 +91,9 @@ def random_ops(rng: random.Random, pool: list, length: int) -> list[dict]:
         if kind == "pobj_new":
             op["j"] = npobj
             npobj += 1
+            op["kind"] = rng.choice(["P", "P", "P", "PE", "D", "DE", "F", "FE"])
+            if op["kind"] in ("D", "DE") and len(vs) != 1:
+                op["kind"] = "P"
         if kind in ("pobj_at", "pobj_expr"):
             if npobj == 0:
                 op["op"] = "partial"
@@ -121,9 +125,54 @@ def directed_prefixes(rng: random.Random, pool: list) -> list[list[dict]]:
         [{"op": "pobj_new", "i": j, "j": 0, "p": P, "x": x}, {"op": "pobj_at", "j": 0, "i": j, "p": P, "x": x},
          {"op": "at", "i": i, "p": Q, "x": x}, {"op": "pobj_expr", "j": 0, "i": j, "p": P, "x": x},
          {"op": "pobj_at", "j": 0, "i": j, "p": Q, "x": x}, {"op": "diff_early_at", "i": j, "p": P, "x": x}],
+        # the same persistent object at the same point again, the expression evaluated elsewhere in between
+        [{"op": "pobj_new", "i": j, "j": 0, "p": P, "x": x}, {"op": "pobj_at", "j": 0, "i": j, "p": P, "x": x},
+         {"op": "at", "i": j, "p": Q, "x": x}, {"op": "pobj_at", "j": 0, "i": j, "p": P, "x": x},
+         {"op": "partial", "i": i, "p": Q, "x": x}, {"op": "pobj_at", "j": 0, "i": j, "p": P, "x": x}],
+        [{"op": "pobj_new", "i": j, "j": 0, "p": P, "x": x, "kind": "F"}, {"op": "pobj_at", "j": 0, "i": j, "p": P, "x": x},
+         {"op": "located", "i": i, "p": Q, "x": x}, {"op": "pobj_at", "j": 0, "i": j, "p": P, "x": x},
+         {"op": "pobj_new", "i": j, "j": 1, "p": P, "x": x, "kind": "FE"}, {"op": "at", "i": j, "p": Q, "x": x},
+         {"op": "pobj_at", "j": 1, "i": j, "p": P, "x": x}, {"op": "pobj_at", "j": 1, "i": j, "p": P, "x": x}],
         [{"op": "located", "i": i, "p": P, "x": x}, {"op": "located", "i": i, "p": Q, "x": x}, {"op": "diff_at", "i": j, "p": P, "x": x},
          {"op": "component_at", "i": j, "p": Q, "x": x}],
     ]
+
+
+def domain_prefixes(rng: random.Random, pool: list) -> list[list[dict]]:
+    """histories that cross the border of the domain on the same objects: a successful evaluation
+    leaves memos that must not decide the next query's domain verdict, and a failed one must not
+    poison the next successful one — through every route that checks the domain separately"""
+    g = gen.Gen(rng, floats_only=True)
+    names = sorted(set().union(*(e._variable_names for e in pool))) or ["x"]
+    texts = pool_to_wire(pool)
+    out = []
+    for j in range(len(pool)):
+        good = bad = None
+        for _ in range(12):
+            q = g.point(names)
+            r = call(build_pool(texts)[j].at, Point(**q))
+            if r[0] == "ok" and good is None:
+                good = q
+            if r == ("err", "domain") and bad is None:
+                bad = q
+        if good is None or bad is None:
+            continue
+        vs = sorted(pool[j]._variable_names) or ["x"]
+        x = rng.choice(vs)
+        G, B = wire.point(good), wire.point(bad)
+        op = lambda k, p, **kw: dict({"op": k, "i": j, "p": p, "x": x}, **kw)  # noqa: E731
+        out += [
+            [op("at", G), op("partial_early", B), op("partial_early", G)],
+            [op("at", B), op("partial_early", G), op("diff_early_at", B)],
+            [op("pobj_new", G, j=0, kind="PE"), op("pobj_at", G, j=0), op("pobj_at", B, j=0), op("pobj_at", G, j=0)],
+            [op("pobj_new", G, j=0, kind="P"), op("pobj_at", G, j=0), op("pobj_expr", G, j=0), op("pobj_at", B, j=0),
+             op("pobj_at", G, j=0)],
+            [op("pobj_new", G, j=0, kind="FE"), op("pobj_at", B, j=0), op("pobj_at", G, j=0), op("at", G), op("pobj_at", B, j=0)],
+            [op("located", G), op("component_at", B), op("diff_at", G), op("partial", B), op("partial", G)],
+        ]
+        if len(vs) == 1:
+            out.append([op("pobj_new", G, j=0, kind="DE"), op("pobj_at", G, j=0), op("pobj_at", B, j=0), op("pobj_at", G, j=0)])
+    return out
 
 
 def repeated_simplification(rng: random.Random, pool: list) -> list[dict]:
@@ -184,15 +233,30 @@ class Runner:
         if k == "partial_early":
             return call(lambda: sm.Partial(e, x, compute_early=True).at(p), timeout=30)
         if k == "pobj_new":
-            self.pobjs[op["j"]] = sm.Partial(e, x)
-            self.pobj_src[op["j"]] = (op["i"], x)
+            kind = op.get("kind", "P")
+            r = call(lambda: make_obj(kind, e, x), timeout=30)
+            if r[0] != "ok":
+                self.pobjs.pop(op["j"], None)
+                return r
+            self.pobjs[op["j"]] = r[1]
+            self.pobj_src[op["j"]] = (op["i"], x, kind)
             self.pobj_expr_called[op["j"]] = False
             return ("ok", None)
         if k == "pobj_at":
-            return call(lambda: self.pobjs[op["j"]].at(p))
+            o = self.pobjs.get(op["j"])
+            if o is None:
+                return ("ok", None)
+            if isinstance(o, sm.Differential):
+                return call(lambda: o.at(p).component(x), timeout=30)
+            return call(lambda: o.at(p))
         if k == "pobj_expr":
+            o = self.pobjs.get(op["j"])
+            if o is None:
+                return ("ok", None)
             self.pobj_expr_called[op["j"]] = True
-            return call(lambda: self.pobjs[op["j"]].as_expression(), timeout=30)
+            if isinstance(o, sm.Differential):
+                return call(lambda: o.component(x).as_expression(), timeout=30)
+            return call(lambda: o.as_expression(), timeout=30)
         if k == "diff_at":
             return call(lambda: sm.Differential(e).at(p).component(x))
         if k == "diff_early_at":
@@ -208,15 +272,35 @@ class Runner:
         raise ValueError(k)
 
 
+def make_obj(kind: str, e, x: str):
+    """the persistent derivative objects of histories: Partial / Derivative / Differential, late or early"""
+    if kind == "P":
+        return sm.Partial(e, x)
+    if kind == "PE":
+        return sm.Partial(e, x, compute_early=True)
+    if kind == "D":
+        return sm.Derivative(e)
+    if kind == "DE":
+        return sm.Derivative(e, compute_early=True)
+    if kind == "F":
+        return sm.Differential(e)
+    return sm.Differential(e, compute_early=True)
+
+
 def fresh_result(pool_texts: list[str], op: dict, src: tuple | None, expr_called_before: bool):
     """the same operation on a freshly built, never-used copy; a persistent Partial is rebuilt in the
     abstract state it had (whether as_expression() had been called on it)"""
     r = Runner(build_pool(pool_texts))
     if op["op"] in ("pobj_at", "pobj_expr"):
         j = op["j"]
-        i, x = src
-        r.pobjs[j] = sm.Partial(r.pool[i], x)
-        if expr_called_before:
+        if src is None:
+            return ("ok", None)
+        i, x, kind = src
+        made = call(lambda: make_obj(kind, r.pool[i], x), timeout=30)
+        if made[0] != "ok":
+            return made
+        r.pobjs[j] = made[1]
+        if expr_called_before and not isinstance(made[1], sm.Differential):
             call(lambda: r.pobjs[j].as_expression(), timeout=30)
     return r.do(op)
 
